@@ -534,6 +534,7 @@ func init() {
 				cs = append(cs, Case{Kind: "control", Seed: h.Mix(seed, 0xC20C, uint64(i))})
 			}
 			cs = append(cs, Case{Kind: "lenops"})
+			cs = append(cs, Case{Kind: "stdprecompiles"})
 			return cs
 		},
 		Run: runC20,
@@ -595,6 +596,44 @@ func runC20(c Case, tier string) (res CaseResult) {
 		hr := runHostile(dc.World, dc.Env, []h.TxSpec{dc.Tx}, dc.Desc, true, nil)
 		measure(hr, "control")
 		res.Count("control_runs", 1)
+	case "stdprecompiles":
+		// standard precompiles whose input carries length fields or work counters: the fee must follow them
+		word := func(v uint64) []byte { b := make([]byte, 32); new(big.Int).SetUint64(v).FillBytes(b); return b }
+		lens := []uint64{0, 1, 32, 1 << 10, 1 << 16, 1 << 20, 1 << 26}
+		var inputs [][2]interface{}
+		for _, bl := range lens {
+			for _, el := range lens {
+				for _, ml := range lens {
+					in := append(append(append([]byte{}, word(bl)...), word(el)...), word(ml)...)
+					in = append(in, 3, 5, 7)
+					inputs = append(inputs, [2]interface{}{byte(5), in})
+				}
+			}
+		}
+		for _, rounds := range []uint32{0, 1, 1 << 10, 1 << 20} {
+			in := make([]byte, 213)
+			in[0], in[1], in[2], in[3] = byte(rounds>>24), byte(rounds>>16), byte(rounds>>8), byte(rounds)
+			in[212] = 1
+			inputs = append(inputs, [2]interface{}{byte(9), in})
+		}
+		for _, l := range []int{0, 1, 64, 1 << 12, 1 << 16} {
+			for _, pc := range []byte{2, 3, 4} {
+				inputs = append(inputs, [2]interface{}{pc, make([]byte, l)})
+			}
+		}
+		for _, in := range inputs {
+			pc, payload := in[0].(byte), in[1].([]byte)
+			for _, f := range []h.Fork{h.Byzantium, h.Berlin} {
+				if pc == 9 && f < h.Istanbul {
+					continue
+				}
+				code := c14Last(h.CALL, common.BytesToAddress([]byte{pc}), 400000, f)
+				hr := runHostile(h.BaseWorld([][]byte{code}), h.EnvSpec{Fork: f}, []h.TxSpec{{Entry: h.ECall, From: h.Sender, To: h.ContractAddr(0), Input: payload, Gas: 2_000_000}},
+					fmt.Sprintf("CALL to precompile %d on %s with %d bytes of input, head %x", pc, f, len(payload), clipB(payload)), true, nil)
+				measure(hr, fmt.Sprintf("std-precompile-%d", pc))
+				res.Count("std_precompile_calls_measured", 1)
+			}
+		}
 	case "lenops":
 		// every standard opcode taking a length, with lengths 2^10 .. 2^64
 		type lop struct {
